@@ -23,7 +23,7 @@ HARNESSES = [
 ]
 GROUPS = {"ipf": "check_ipf_p", "mux": "check_mux_p"}
 EXPLAIN = {"ipf": "explain_ipf_p", "mux": "explain_mux_p"}
-CASES = {"quick": 900, "thorough": 24000}
+CASES = {"quick": 900, "thorough": 16000}
 RULE = ("ipf cases: 1-3 filters (allow/block lists of addresses and CIDRs, primary prefix length cycles through 0..32 / 0..128, "
         "overlapping / nested / sibling entries, IPv4, IPv6, mixed, IPv4-mapped-IPv6 entries in an exotic stream, malformed stream) "
         "x clients at the prefix boundaries (bit len-1 / len flipped, first/last address, just below/above, other family, unparsable); "
